@@ -21,7 +21,7 @@
 #define verif_dropped_case() M_ASSERT(0, "a case of build_exec that the extraction dropped was reached")
 #define verif_assert_fail_libc(a, b, c, d) verif_assert_fail("assert in build.cc")
 unsigned long nondet_ulong(void);
-enum mop_kind { K_NONE, K_UPSTREAM, K_ORIGIN, K_SUBCHAIN, K_IFELSE, K_MERGE, K_TINE, K_CAPTURE, K_SUBX, K_CLOSURE, K_OR, K_READ, K_UPREAD, K_APPLY, K_BIND, K_BUILTIN, K_LEXCLOSURE, K_SORIGIN, K_SLIT, K_SOP, K_FORMAT };
+enum mop_kind { K_NONE, K_UPSTREAM, K_ORIGIN, K_SUBCHAIN, K_IFELSE, K_MERGE, K_TINE, K_CAPTURE, K_SUBX, K_CLOSURE, K_OR, K_READ, K_UPREAD, K_APPLY, K_BIND, K_BUILTIN, K_LEXCLOSURE, K_SORIGIN, K_SLIT, K_SOP, K_FORMAT, K_ASSERT };
 typedef struct mlayout { unsigned long m_size; } mlayout;
 typedef struct mlayvec { mlayout d[4]; unsigned long n; } mlayvec;
 #define MLAYVEC_FROM_IL(il) (il)
@@ -43,7 +43,7 @@ struct mtree;
 typedef struct mtreevec { struct mtree *d; unsigned long n; } mtreevec;
 typedef int matom;              /* an identifier (std::string in tree::str, bindings, uprefs): atoms 0..3 */
 #define NATOMS 4
-typedef struct mtree { int m_tt; mtreevec m_children; mbuiltin *m_builtin; matom m_str; } mtree;
+typedef struct mtree { int m_tt; mtreevec m_children; mbuiltin *m_builtin; matom m_str; unsigned long m_cstval; } mtree;
 #define PTR_ID(p) (p)
 #define VERIF_MOVE(p) (p)
 static inline const mtree *mtreevec_at(const mtreevec *v, unsigned long i) { M_ASSERT(i < v->n, "child index within the tree"); return &v->d[i < v->n ? i : 0]; }
@@ -170,4 +170,14 @@ static inline mop *mk_sorigin(mlayout *l) { mop *o = new_op(K_SORIGIN); model_re
 static inline mop *mk_slit(mop *const *s, const matom *str) { mop *o = new_op(K_SLIT); o->a[0] = *s; o->extra = (unsigned long)*str; return o; }
 static inline mop *mk_sop(mlayout *l, mop *const *s, mop *const *origin, mop *const *op) { mop *o = new_op(K_SOP); o->a[0] = *s; o->a[1] = *origin; o->a[2] = *op; model_reserve(o, l); return o; }
 static inline mop *mk_format(mlayout *l, mop *const *up, mop *const *so, mop *const *s) { mop *o = new_op(K_FORMAT); o->a[0] = *up; o->a[1] = *so; o->a[2] = *s; model_reserve(o, l); return o; }
+/* ---- sub-expression evaluation and assertions (C04 wiring) ---- */
+static inline const unsigned long *mtree_cst(const mtree *t) { return &t->m_cstval; }     /* tree::cst().value().uval(): the number the parser stored */
+#define mconst_value(p) (p)
+#define mmpz_uval(p) (*(p))
+static inline mop *mk_subx(mlayout *l, mop *const *up, mop *const *origin, mop *const *op, const unsigned long *keep)
+{ mop *o = new_op(K_SUBX); o->a[0] = *up; o->a[1] = *origin; o->a[2] = *op; o->extra = *keep; model_reserve(o, l); return o; }
+extern unsigned g_npreds; extern const mtree *g_pred_tree; extern const mlayout *g_pred_lay; extern const mbindings *g_pred_scope; extern const muprefs *g_pred_up; extern unsigned long g_pred_rdv;
+static inline int build_pred_model(const mtree *t, mlayout *l, unsigned long rdv, mbindings *bn, muprefs *up)
+{ g_npreds++; g_pred_tree = t; g_pred_lay = l; g_pred_scope = bn; g_pred_up = up; g_pred_rdv = rdv; return 4242; }
+static inline mop *mk_assert(mop *const *up, const int *pred) { mop *o = new_op(K_ASSERT); o->a[0] = *up; o->extra = (unsigned long)*pred; return o; }
 #endif
